@@ -45,6 +45,19 @@ fn sign_mut_step(alg: Alg, blob: &[u8], msg: &[u8], cb: Cb) -> (libcall::SignRec
     (rec, m)
 }
 
+/// sign_mut on the buffer exactly as given (accepting callback)
+#[cfg(feature = "fv")]
+fn sign_mut_raw(alg: Alg, blob: &[u8], msg: &[u8]) -> (libcall::SignRec, Vec<u8>) {
+    let mut m = msg.to_vec();
+    let (rec, _) = libcall::sign_mut(alg, blob, &mut m, Cb::Accept);
+    (rec, m)
+}
+
+#[cfg(not(feature = "fv"))]
+fn sign_mut_raw(_alg: Alg, _blob: &[u8], msg: &[u8]) -> (libcall::SignRec, Vec<u8>) {
+    (libcall::SignRec { result: Out::Err, cb_args: Vec::new(), late_callbacks: 0, key_after: None }, msg.to_vec())
+}
+
 #[cfg(not(feature = "fv"))]
 fn sign_mut_step(_alg: Alg, _blob: &[u8], msg: &[u8], _cb: Cb) -> (libcall::SignRec, Vec<u8>) {
     (libcall::SignRec { result: Out::Err, cb_args: Vec::new(), late_callbacks: 0, key_after: None }, msg.to_vec())
@@ -135,6 +148,31 @@ fn run_hist(h: Hist, w: &mut Worker, ctx: &Ctx) {
         } else {
             None
         };
+        // in a fast_verify build: now and then a sign_mut call that must be refused because of its
+        // message buffer (trailer not blank, or too short).  Whatever the callback is handed during
+        // such a call is persisted, as a real caller's storage layer would do
+        if cfg!(feature = "fv") && rng.below(8) == 0 {
+            let mut bad = msg.clone();
+            if rng.below(2) == 0 {
+                bad.extend(std::iter::repeat(0u8).take(h.alg.n()));
+                let l = bad.len();
+                bad[l - 1 - rng.range(0, h.alg.n())] = 0x80;
+            } else {
+                bad.truncate(h.alg.n().min(bad.len()));
+            }
+            let (r, _) = sign_mut_raw(h.alg, &persisted, &bad);
+            w.report.eval();
+            failed_attempts += 1;
+            log.push("sign_mut(bad buffer)".into());
+            if r.result.is_ok() {
+                w.report.violation(&hist_key("released_for_bad_buffer"), "sign_mut released a signature for a message buffer it must refuse", witness(&log, &persisted));
+            }
+            if let Some(k) = r.cb_args.first() {
+                w.report.violation(&hist_key("key_advanced_without_release"), "a refused sign_mut call handed a new key to the update callback: the persisted key advanced although nothing was released", witness(&log, &persisted));
+                persisted = k.clone();
+            }
+            continue;
+        }
         // in a build with the library's fast_verify feature a quarter of the steps go through
         // hbs_lms::sign_mut (the signed content is then the message as the call left it)
         #[allow(unused_mut)]
